@@ -195,12 +195,20 @@ class SqlFluffColumn(Column):
                 sub_segment.raw, dialect=SQLPARSE_DIALECT
             ).get_column_lineage(exclude_path_ending_in_subquery=False)
         ]
-        source_columns = [
-            ColumnQualifierTuple(
-                src_col.raw_name, src_col.parent.raw_name if src_col.parent else None
-            )
-            for src_col in src_cols
-        ]
+        source_columns = []
+        for src_col in src_cols:
+            parent = src_col.parent
+            if isinstance(parent, Table):
+                # keep a schema the subquery spelled out, so the column is not re-attributed to the default one;
+                # a bare name can still be an alias of the outer query (correlated subquery)
+                qualifier = (
+                    str(parent) if parent.schema != Schema() else parent.raw_name
+                )
+            elif isinstance(parent, SubQuery):
+                qualifier = parent.alias
+            else:
+                qualifier = None
+            source_columns.append(ColumnQualifierTuple(src_col.raw_name, qualifier))
         return source_columns
 
     @staticmethod
